@@ -231,6 +231,10 @@ def run_config(v, ctx, tftpd, thorough, names, cfgname, dist, ow, rng):
                         # no reply inside the batch window: ask again alone with a generous timeout before judging
                         # (a slow answer on a loaded machine is not a missing answer)
                         again = run_batch(srv, [name], kind, f"{cfgname}-{kind}-retry", patience=2.5)[0]
+                        if again["reply"] is None:
+                            # a traced (strace) server on a loaded machine can be seconds behind: once more, very patiently
+                            time.sleep(1.0)
+                            again = run_batch(srv, [name], kind, f"{cfgname}-{kind}-retry2", patience=10.0)[0]
                         r["reply"], r["error"], r["data"] = again["reply"], again["error"], again["data"]
                         replay["retried_alone"] = True
                         replay["reply"] = r["reply"]
